@@ -30,6 +30,7 @@ type histResult struct {
 	Fails    map[string]int `json:"fails"`   // "kind|depth" -> injected
 	Triples  []string       `json:"triples"` // kind|depth|position
 	Outcomes map[string]int `json:"outcomes"`
+	Forms    map[string]int `json:"forms"` // host function | call form -> calls monitored
 	Probes   int            `json:"probes"`
 	PFProbes int            `json:"pf_probes"`
 	Calls    int            `json:"calls"`
@@ -119,6 +120,10 @@ func run(c *core.Ctx) int {
 				c.Count("outcome_"+k, int64(v))
 				c.Distinct("outcome_classes", k)
 			}
+			for k, v := range hr.Forms {
+				c.Count("host_module_checks", int64(v))
+				c.Count("hostcall_"+k, int64(v))
+			}
 			for k, v := range hr.Fails {
 				c.Count("failures_injected", int64(v))
 				c.Distinct("failure_kind_x_depth", k)
@@ -151,6 +156,13 @@ func run(c *core.Ctx) int {
 			c.Inconclusive("failure-family-never-injected:" + fam)
 		}
 	}
+	for _, fn := range []string{"observe", "host_panic", "host_exit"} {
+		for _, form := range []string{"call-in-own-function", "call_indirect-in-own-function", "call-in-imported-function", "call_indirect-in-imported-function"} {
+			if c.Counter("hostcall_"+fn+"|"+form) == 0 {
+				c.Inconclusive("host-call-form-never-run:" + fn + ":" + form)
+			}
+		}
+	}
 	if c.Counter("op_start") == 0 {
 		c.Inconclusive("start-function-failures-never-run")
 	}
@@ -168,9 +180,10 @@ func run(c *core.Ctx) int {
 	}
 	c.Assume("after an exit (proc_exit or CloseWithExitCode+panic) the instance is expected closed: only 'calls return *sys.ExitError with the same code' is demanded of it; a host panic(sys.NewExitError) without Close leaves it open")
 	c.Assume("nothing is injected into frames of an instance after it exited, and no call is made into a closed instance through an import")
+	c.Assume("WASI proc_exit cannot be instrumented: which module it acted on is judged by the closed-ness probes of every instance")
 	c.Assume("stack overflow is recognised as errors.Is(err, ErrRuntimeStackOverflow) (the compiler returns it without the 'wasm error:' prefix)")
 	return c.Finish(evals, int64(c.DistinctN("kind_depth_position")),
-		"PRNG histories (5-40 operations over 1-3 instances, B<-A linked by a function import, C independent) run on interpreter and compiler against a Go model; every operation's outcome (result or error class), every error observed by re-entrant host functions at nesting depth 1-6, and the state of every instance after every failing operation are compared with the model, and the two engines' transcripts with each other; evaluations = histories decided; distinct = distinct (failure kind, nesting depth, position in history) triples injected")
+		"PRNG histories (5-40 operations over 1-3 instances, B<-A linked by a function import, C independent) run on interpreter and compiler against a Go model; every operation's outcome (result or error class), every error observed by re-entrant host functions at nesting depth 1-6, the api.Module handed to every host function (by name and memory marker, for direct and call_indirect calls from own and from imported functions), and the state of every instance after every failing operation are compared with the model, and the two engines' transcripts with each other; evaluations = histories decided; distinct = distinct (failure kind, nesting depth, position in history) triples injected")
 }
 
 func kindDepthTable(c *core.Ctx) map[string]int64 {
@@ -217,7 +230,7 @@ func child(mode string, in json.RawMessage) any {
 
 func runCase(hc histCase, verbose bool) *histResult {
 	ops := genHistory(hc)
-	hr := &histResult{Ops: map[string]int{}, Fails: map[string]int{}, Outcomes: map[string]int{}}
+	hr := &histResult{Ops: map[string]int{}, Fails: map[string]int{}, Outcomes: map[string]int{}, Forms: map[string]int{}}
 	for i, o := range ops {
 		hr.Ops[o.Kind]++
 		hr.Outcomes[normClass(o.WantClass)]++
@@ -226,6 +239,9 @@ func runCase(hc histCase, verbose bool) *histResult {
 			hr.Triples = append(hr.Triples, fmt.Sprintf("%s|%d|%d", f.Kind, f.Depth, i))
 		}
 		hr.Calls += 1 + len(o.Steps)
+		for _, ev := range o.WantMods {
+			hr.Forms[ev.Fn+"|"+ev.Form]++
+		}
 	}
 	pr := core.NewRng(int64(hc.Seed), 66)
 	sel := map[int]bool{}
